@@ -119,3 +119,14 @@ fn f11_alpha_above_one() {
         assert!(dt.get_data().iter().all(|p| *p == 0xffffffff), "alpha {} behaves as 1", alpha);
     }
 }
+
+#[test] // finding 12: C15  copy/blend_surface mis-clips and misplaces the block when src_rect does not start at the origin
+fn f12_copy_surface_sub_rect() {
+    let mut src = DrawTarget::new(4, 4);
+    for (i, p) in src.get_data_mut().iter_mut().enumerate() { *p = 0xff000000 | i as u32; }
+    let mut dst = DrawTarget::new(4, 4);
+    dst.copy_surface(&src, IntRect::new(IntPoint::new(2, 2), IntPoint::new(4, 4)), IntPoint::new(1, 1));
+    let d = dst.get_data();
+    assert_eq!((d[5], d[6], d[9], d[10]), (0xff00000a, 0xff00000b, 0xff00000e, 0xff00000f), "src (2..4,2..4) lands on dst (1..3,1..3)");
+    assert_eq!(d.iter().filter(|p| **p != 0).count(), 4);
+}
